@@ -1115,6 +1115,37 @@ pub fn check_c17(plan: &Plan, out: &RunOutput) -> Option<Violation> {
             },
             other => other,
         };
+        // the embedded picture vanished under the client's feet (a continuation `readpicture`
+        // was answered with a bare OK): absence, an error or the complete cover file are all
+        // defensible — bytes that are not one stored picture are not
+        let vanished = pic
+            .embedded_vanishes_at
+            .map(|t| {
+                reqs.iter()
+                    .any(|r| r.embedded && r.error.is_none() && r.offset > 0 && r.offset >= t)
+            })
+            .unwrap_or(false);
+        if vanished {
+            let ok = match &op.result {
+                OpResult::Art(None) => true,
+                OpResult::Art(Some((b, m))) => {
+                    matches!(&pic.cover, Cover::Bytes(c) if c == b) && m.is_none()
+                }
+                r => r.is_err(),
+            };
+            if !ok {
+                return Some(Violation::new(
+                    "C17",
+                    "bytes_of_two_pictures_stitched",
+                    format!(
+                        "album_art({:?}): the embedded picture vanished during the transfer (a later readpicture was answered with a bare OK) and the call returned {} — neither absence, nor an error, nor the complete cover file",
+                        uri,
+                        op.result.summary()
+                    ),
+                ));
+            }
+            continue;
+        }
         if !art_matches(&exp, &op.result) {
             let clause = match (&exp, &op.result) {
                 (ArtExpect::Some(..), OpResult::Art(Some(_))) => "bytes_or_mime_differ",
